@@ -170,6 +170,9 @@ func runC03(env *core.Env) {
 		crlf := f.SA.WithLog(bytes.ReplaceAll(f.SA.Log(), []byte("\n"), []byte("\r\n")))
 		roots = append(roots, &c03State{Store: crlf, Path: []string{"S_A-with-CRLF-line-ends"}, Cmds: []int{0, 3, 4, 9, 10}})
 	}
+	// the write cut short by the kernel (disk full / file size limit) with the process still alive to react: whatever
+	// it does then (error out, roll back), everything acknowledged before must still be there (cheap, so it runs first)
+	shortCov := shortWritePhase(env, "C03", f.SA, []crashCmd{menu[0], menu[3], menu[4], menu[8]})
 	var mu sync.Mutex
 	seen := map[string]bool{}
 	key := func(st core.Store) string {
@@ -379,9 +382,6 @@ func runC03(env *core.Env) {
 	if len(samples.list) == 0 {
 		samples.add("no torn state produced")
 	}
-	// the write cut short by the kernel (disk full / file size limit) with the process still alive to react: whatever
-	// it does then (error out, roll back), everything acknowledged before must still be there
-	shortCov := shortWritePhase(env, "C03", f.SA, []crashCmd{menu[0], menu[3], menu[4], menu[8]})
 	env.Finish("model_checking", map[string]interface{}{
 		"short_write_phase": shortCov,
 		"states":            len(seen), "transitions": crashStates + tornStates + followUps, "traces_validated_against_impl": crashStates,
